@@ -140,7 +140,7 @@ def run(ctx, rep, tier):
     n_names = symbolic_names(B, rep, tier)
     n_mode = mode_predicate(B, rep, 4 if tier == "quick" else 6)
     cov = B.coverage_common()
-    cov["symbolic_file_names"] = dict(obligations=n_names, explanation="file actions whose file name is 1-2 (thorough 3) arbitrary code points: the destination "
+    cov["symbolic_file_names"] = dict(obligations=n_names, explanation="file actions whose file name is 1, 2, 6 or 11 (thorough 1..16) arbitrary code points: the destination "
                                       "table must name exactly that file for every name (z3 over the name characters), alone and next to a "
                                       "second file action with a symbolic name (equal names share a tag, different names do not)")
     cov["mode_predicate"] = dict(obligations=n_mode, explanation="Expression::complex_frames executed symbolically (MIR) on -printf / -fprintf "
@@ -171,7 +171,8 @@ def symbolic_names(B, rep, tier):
         return Adt("Expression", "Operator", [BoxV(Adt("Operator", "List", [a, b]), "Rc")])
     cases = []
     for kind in ("FilePrint", "FilePrintNull", "FilePrintFormatted"):
-        for k in ((1, 2) if tier == "quick" else (1, 2, 3)):
+        # longer names too: a file name treated specially (`/dev/stdout` and the like) is found by the solver if it fits
+        for k in ((1, 2, 6, 11) if tier == "quick" else range(1, 17)):
             cs = [sym_char() for _ in range(k)]
             cases.append(("%s[%d]" % (kind, k), act(kind, cs), [cs], [kind]))
     c1, c2 = [sym_char()], [sym_char()]
